@@ -63,6 +63,13 @@ int ref_bloom_params(uint64_t n, float p, uint64_t *m, uint32_t *k) {
   return 0;
 }
 
+/* (m, k) for count consecutive estimates n0, n0+1, ...; entries the sizing refuses get m = 0 */
+void ref_bloom_params_sweep(uint64_t n0, uint64_t count, float p, uint64_t *m, uint32_t *k) {
+  for (uint64_t i = 0; i < count; i++) {
+    if (ref_bloom_params(n0 + i, p, &m[i], &k[i]) != 0) { m[i] = 0; k[i] = 0; }
+  }
+}
+
 static int bloom_footer(const uint8_t *f, size_t len, uint64_t *est, uint64_t *added, float *fpr,
                         uint64_t *m, uint32_t *k) {
   if (len < 20) return -10;
